@@ -62,6 +62,7 @@ type ProofOpts struct {
 	Thorough  bool
 	Verbose   bool
 	Sim       bool
+	OnlyKinds map[string]bool // restrict the check pass to these obligation kinds (no inference)
 	Hook      func(fp *FuncProof) // driver-specific setup (adds atoms, spec hooks)
 	ExtraExit func(fp *FuncProof, pe *PathEnd) []*Oblig
 }
@@ -727,6 +728,15 @@ func (fp *FuncProof) checkPath(pe *PathEnd) {
 			items = append(items, goalItem{name: fmt.Sprintf("%s/%s/%s/%s", fnName, from, o.Kind, o.Name), kind: o.Kind, t: o.Goal, nhyp: o.NHyp, line: fp.line(o.Pos)})
 		}
 	}
+	if fp.opts.OnlyKinds != nil {
+		var keep []goalItem
+		for _, it := range items {
+			if fp.opts.OnlyKinds[it.kind] {
+				keep = append(keep, it)
+			}
+		}
+		items = keep
+	}
 	if len(items) == 0 {
 		return
 	}
@@ -1017,6 +1027,14 @@ func (fp *FuncProof) exitGoals(pe *PathEnd) []goalItem {
 	fnName := fp.eng.displayName(fp.fn)
 	from := fp.fromLabel(pe)
 	line := fp.line(pe.Pos)
+	// returned strings own their memory: they come from a []byte->string conversion (a copy by the
+	// language definition), a constant, or are empty - never a view of the input or of a buffer
+	for j, rv := range pe.Results {
+		if sv, ok := rv.(*StringV); ok {
+			owns := sv.Reg.Copy || sv.Reg.Kind == "nil" || strings.HasPrefix(sv.Reg.Name, "strconst")
+			items = append(items, goalItem{name: fmt.Sprintf("%s/%s/exit@L%d/frame/returned-string-%d-owns-memory", fnName, from, line, j), kind: "frame", t: BoolC(owns), nhyp: -1, line: line})
+		}
+	}
 	for k, c := range fp.fc.Ensures {
 		if !fp.ex.clauseActive(c) {
 			continue
@@ -1111,7 +1129,9 @@ func (fp *FuncProof) checkWeakEdges() {
 func (fp *FuncProof) Run() {
 	t0 := time.Now()
 	fp.Prepare()
-	fp.Houdini()
+	if fp.opts.OnlyKinds == nil {
+		fp.Houdini()
+	}
 	fp.Check()
 	fp.stats.Secs = time.Since(t0).Seconds()
 }
